@@ -1,0 +1,37 @@
+package base
+
+import (
+	"testing"
+
+	"github.com/relex/gotils/promexporter/promreg"
+	"github.com/stretchr/testify/assert"
+)
+
+func TestLogProcessCounterSetInvalidUTF8Keys(t *testing.T) {
+	schema := MustNewLogSchema([]string{"app", "source", "log"})
+	mfactory := promreg.NewMetricFactory("testpcutf8_", nil, nil)
+	pcounter := NewLogProcessCounter(mfactory, schema, schema.MustCreateFieldLocators([]string{"app", "source"}), nil)
+	countLabelled := pcounter.RegisterCustomCounter("mylabel")
+
+	// field values are arbitrary bytes from the network; they must not crash the metric registry or break collection
+	for _, fields := range []LogFields{
+		{"ok", "main", "1"},
+		{"bad\xff", "main", "2"},
+		{"ok", "\xc3", "3"},
+		{"bad\xff", "main", "4"},
+		{"bad\xfe", "main", "5"},
+	} {
+		record := schema.NewTestRecord1(fields)
+		record.RawLength = 10
+		assert.NotPanics(t, func() {
+			icounter := pcounter.SelectMetricKeySet(record)
+			icounter.CountRecordPass(record)
+			countLabelled(record.RawLength)
+		})
+	}
+	pcounter.UpdateMetrics()
+
+	_, err := mfactory.Gather()
+	assert.NoError(t, err)
+	assert.Equal(t, []string{"ab", "", "valid ä"}, MetricLabelValues([]string{"a\xffb", "", "valid ä"}))
+}
